@@ -5,6 +5,7 @@
 //!   roundtrip   -> "OK same" | "DIFF <rendering json> <reparsed sexpr or ERR>" | "ERR <message>" (input does not parse)
 //!   render      -> "OK <rendering json>"
 //!   lex <spec.json> -> token index sequence under lalrpop's real matcher built from the given regex list
+mod scenario;
 use reval::prelude::*;
 use std::io::{BufRead, Write};
 use std::panic;
@@ -104,6 +105,29 @@ fn build(v: &serde_json::Value) -> Expr {
     }
 }
 
+/// Node of kind `k` over already-built children (used by the scenario runner).
+pub fn build_with(k: &str, kids: Vec<Expr>) -> Expr {
+    let mut it = kids.into_iter();
+    let mut nx = || Box::new(it.next().expect("child"));
+    match k {
+        "If" => Expr::If(nx(), nx(), nx()),
+        "Not" => Expr::Not(nx()), "Neg" => Expr::Neg(nx()), "Some" => Expr::Some(nx()), "None" => Expr::None(nx()),
+        "Int" => Expr::Int(nx()), "Float" => Expr::Float(nx()), "Dec" => Expr::Dec(nx()), "DateTime" => Expr::DateTime(nx()),
+        "Duration" => Expr::Duration(nx()),
+        "Mult" => Expr::Mult(nx(), nx()), "Div" => Expr::Div(nx(), nx()), "Rem" => Expr::Rem(nx(), nx()), "Add" => Expr::Add(nx(), nx()),
+        "Sub" => Expr::Sub(nx(), nx()), "Equals" => Expr::Equals(nx(), nx()), "NotEquals" => Expr::NotEquals(nx(), nx()),
+        "GreaterThan" => Expr::GreaterThan(nx(), nx()), "GreaterThanEquals" => Expr::GreaterThanEquals(nx(), nx()),
+        "LessThan" => Expr::LessThan(nx(), nx()), "LessThanEquals" => Expr::LessThanEquals(nx(), nx()),
+        "And" => Expr::And(nx(), nx()), "Or" => Expr::Or(nx(), nx()), "BitAnd" => Expr::BitAnd(nx(), nx()), "BitOr" => Expr::BitOr(nx(), nx()),
+        "BitXor" => Expr::BitXor(nx(), nx()), "Contains" => Expr::Contains(nx(), nx()),
+        "UpperCase" => Expr::UpperCase(nx()), "LowerCase" => Expr::LowerCase(nx()), "Trim" => Expr::Trim(nx()), "Floor" => Expr::Floor(nx()),
+        "Round" => Expr::Round(nx()), "Fract" => Expr::Fract(nx()), "Year" => Expr::Year(nx()), "Month" => Expr::Month(nx()),
+        "Week" => Expr::Week(nx()), "Day" => Expr::Day(nx()), "Hour" => Expr::Hour(nx()), "Minute" => Expr::Minute(nx()),
+        "Second" => Expr::Second(nx()),
+        other => panic!("unknown node kind {other}"),
+    }
+}
+
 fn guarded<F: FnOnce() -> String + panic::UnwindSafe>(f: F) -> String {
     match panic::catch_unwind(f) {
         Ok(s) => s,
@@ -130,6 +154,12 @@ fn main() {
     for line in stdin.lock().lines() {
         let line = line.unwrap();
         if line.trim().is_empty() { continue; }
+        if mode == "scenario" {
+            let spec: serde_json::Value = serde_json::from_str(&line).unwrap();
+            let res = guarded(move || format!("OK {}", scenario::run(&spec)));
+            writeln!(out, "{}", res).unwrap();
+            continue;
+        }
         if mode == "render-spec" {
             // input: a JSON tree spec; output: JSON string of its Display rendering
             let spec: serde_json::Value = serde_json::from_str(&line).unwrap();
